@@ -88,7 +88,7 @@ func c09Gen(c *Ctx) *c09Scenario {
 		n := g.Range(1, maxEv)
 		var evs []c09Event
 		for i := 0; i < n; i++ {
-			evs = append(evs, c09Event{Topic: []string{"t0", "t0", "t1"}[g.Intn(3)], ID: fmt.Sprintf("e%d", g.Intn(nid)), Level: g.Intn(4), DurS: g.Intn(10)})
+			evs = append(evs, c09Event{Topic: []string{"t0", "t0", "t1", "t2"}[g.Intn(4)], ID: fmt.Sprintf("e%d", g.Intn(nid)), Level: g.Intn(4), DurS: g.Intn(10)})
 		}
 		sc.Publishers = append(sc.Publishers, evs)
 	}
@@ -97,7 +97,7 @@ func c09Gen(c *Ctx) *c09Scenario {
 		n := g.Range(1, 8)
 		var ops []string
 		for i := 0; i < n; i++ {
-			t := []string{"t0", "t1"}[g.Intn(2)]
+			t := []string{"t0", "t1", "t2"}[g.Intn(3)]
 			if g.Bool() {
 				ops = append(ops, "state:"+t)
 			} else {
@@ -120,6 +120,13 @@ func c09Gen(c *Ctx) *c09Scenario {
 			s.Remove = g.Bool()
 		}
 		sc.Specs = append(sc.Specs, s)
+	}
+	// t2 has no handler: it only comes into existence with the first event collected on it; in a third of the
+	// cases every publisher opens with an event on it, so that several tasks race to create the topic
+	if g.Chance(1, 3) {
+		for p := range sc.Publishers {
+			sc.Publishers[p][0].Topic = "t2"
+		}
 	}
 	sc.UpdateMissingTopic = g.Chance(1, 6)
 	if !c.FaultFree && g.Chance(1, 3) {
@@ -209,6 +216,22 @@ type c09Collect struct {
 	msg       string
 	call, ret int64
 	err       bool
+	failed    int // number of handlers the returned error speaks of
+}
+
+// c09Failed counts the handler failures an error returned by Collect stands for: one per line
+// (the present "multiple errors:" header is not counted), at least one.
+func c09Failed(err error) int {
+	n := 0
+	for _, l := range strings.Split(err.Error(), "\n") {
+		if strings.TrimSpace(l) != "" && strings.TrimSpace(l) != "multiple errors:" {
+			n++
+		}
+	}
+	if n == 0 {
+		n = 1
+	}
+	return n
 }
 
 func runC09(c *Ctx) Verdict {
@@ -227,6 +250,8 @@ func runC09(c *Ctx) Verdict {
 	for _, t := range []string{"t0", "t1", "pub", "agg"} {
 		recs[t] = &harness.RecHandler{Name: "R_" + t}
 	}
+	// a second, never delayed handler per topic, registered after every other handler of the topic
+	recs2 := map[string]*harness.RecHandler{"t0": {Name: "R2_t0"}, "t1": {Name: "R2_t1"}}
 	churnRec := &harness.RecHandler{Name: "R_churn"}
 	var collects []*c09Collect
 	ops := map[string][]porcupine.Operation{}
@@ -278,6 +303,9 @@ func runC09(c *Ctx) Verdict {
 				}
 			}
 		}
+		for _, t := range []string{"t0", "t1"} {
+			d.Alert.RegisterAnonHandler(t, recs2[t])
+		}
 		var wg sync.WaitGroup
 		for p, evs := range sc.Publishers {
 			wg.Add(1)
@@ -303,6 +331,7 @@ func runC09(c *Ctx) Verdict {
 					cl.err = err != nil
 					if err != nil {
 						simrt.Count("obs.collect_error")
+						cl.failed = c09Failed(err)
 					}
 				}
 			}(p, evs)
@@ -401,6 +430,28 @@ func runC09(c *Ctx) Verdict {
 		// let aggregate intervals elapse
 		time.Sleep(2500 * time.Millisecond)
 		simrt.WaitIdle()
+		// final reads of every topic: whatever was collected must be there now
+		for _, t := range []string{"t0", "t1", "t2"} {
+			pd := &pending{topic: t, cid: 200, in: c09In{op: 1}}
+			pd.call = simrt.Stamp()
+			st, ok, _ := d.Alert.TopicState(t)
+			pd.out = c09Out{level: int(st.Level), exists: ok}
+			pd.ret = simrt.Stamp()
+			hist = append(hist, pd)
+			pd = &pending{topic: t, cid: 200, in: c09In{op: 2, min: 0}}
+			pd.call = simrt.Stamp()
+			out := c09Out{events: [4]int{-1, -1, -1, -1}}
+			if es, err := d.Alert.EventStates(t, alert.OK); err == nil {
+				for id, s := range es {
+					var idn int
+					fmt.Sscanf(id, "e%d", &idn)
+					out.events[idn] = int(s.Level)
+				}
+			}
+			pd.out = out
+			pd.ret = simrt.Stamp()
+			hist = append(hist, pd)
+		}
 	})
 	dynRemoved, dynReplaced := 0, 0
 	for _, s := range sc.Specs {
@@ -433,32 +484,44 @@ func runC09(c *Ctx) Verdict {
 	}
 	observed := map[string]seenEv{}
 	for _, t := range []string{"t0", "t1"} {
-		count := map[string]int{}
-		lastSeq := map[int]int{}
-		for _, e := range recs[t].Events {
-			cl := byMsg[e.Message]
-			if cl == nil {
-				return Fail("delivery/foreign", "handler on %s received an event nobody published there: %+v", t, e)
+		got := map[string]int{} // event -> number of the topic's two always-on handlers that received it
+		for hi, rec := range []*harness.RecHandler{recs[t], recs2[t]} {
+			count := map[string]int{}
+			lastSeq := map[int]int{}
+			for _, e := range rec.Events {
+				cl := byMsg[e.Message]
+				if cl == nil {
+					return Fail("delivery/foreign", "handler %s on %s received an event nobody published there: %+v", rec.Name, t, e)
+				}
+				if cl.ev.Topic != t || e.Topic != t {
+					return Fail("delivery/wrong-topic", "handler %s registered on %s received event %s collected on %s (event.Topic=%s)", rec.Name, t, e.Message, cl.ev.Topic, e.Topic)
+				}
+				count[e.Message]++
+				got[e.Message]++
+				if count[e.Message] > 1 {
+					return Fail("delivery/duplicate", "handler %s on %s received event %s twice", rec.Name, t, e.Message)
+				}
+				if ls, ok := lastSeq[cl.p]; ok && ls > cl.seq {
+					return Fail("delivery/order", "handler %s on %s received publisher %d's event #%d after #%d", rec.Name, t, cl.p, cl.seq, ls)
+				}
+				lastSeq[cl.p] = cl.seq
+				if int(e.Level) != cl.ev.Level || e.ID != cl.ev.ID {
+					return Fail("delivery/corrupt", "event %s arrived as id=%s level=%v, published as %+v", e.Message, e.ID, e.Level, cl.ev)
+				}
+				if hi == 0 || observed[e.Message] == (seenEv{}) {
+					observed[e.Message] = seenEv{e.Level, e.Prev}
+				}
 			}
-			if cl.ev.Topic != t || e.Topic != t {
-				return Fail("delivery/wrong-topic", "handler registered on %s received event %s collected on %s (event.Topic=%s)", t, e.Message, cl.ev.Topic, e.Topic)
+			for _, cl := range collects {
+				if cl.ev.Topic == t && !cl.err && count[cl.msg] == 0 {
+					return Fail("delivery/lost", "event %s was collected on %s without error but never handed to handler %s, registered there for the whole run", cl.msg, t, rec.Name)
+				}
 			}
-			count[e.Message]++
-			if count[e.Message] > 1 {
-				return Fail("delivery/duplicate", "handler on %s received event %s twice", t, e.Message)
-			}
-			if ls, ok := lastSeq[cl.p]; ok && ls > cl.seq {
-				return Fail("delivery/order", "handler on %s received publisher %d's event #%d after #%d", t, cl.p, cl.seq, ls)
-			}
-			lastSeq[cl.p] = cl.seq
-			if int(e.Level) != cl.ev.Level || e.ID != cl.ev.ID {
-				return Fail("delivery/corrupt", "event %s arrived as id=%s level=%v, published as %+v", e.Message, e.ID, e.Level, cl.ev)
-			}
-			observed[e.Message] = seenEv{e.Level, e.Prev}
 		}
+		// a Collect that reported f handler failures (full queues) may have skipped at most f handlers
 		for _, cl := range collects {
-			if cl.ev.Topic == t && !cl.err && count[cl.msg] == 0 {
-				return Fail("delivery/lost", "event %s was collected on %s without error but never handed to the handler registered there for the whole run", cl.msg, t)
+			if cl.ev.Topic == t && cl.err && 2-got[cl.msg] > cl.failed {
+				return Fail("delivery/starved", "collecting event %s on %s reported %d handler failure(s) (full queue), but %d of the topic's two always-registered handlers never received it: a handler whose own queue had room was skipped", cl.msg, t, cl.failed, 2-got[cl.msg])
 			}
 		}
 	}
@@ -499,7 +562,7 @@ func runC09(c *Ctx) Verdict {
 		ops[pd.topic] = append(ops[pd.topic], porcupine.Operation{ClientId: pd.cid, Input: pd.in, Call: pd.call, Output: pd.out, Return: pd.ret})
 	}
 	nonTrivial := false
-	for _, t := range []string{"t0", "t1"} {
+	for _, t := range []string{"t0", "t1", "t2"} {
 		h := ops[t]
 		if len(h) == 0 {
 			continue
@@ -649,10 +712,10 @@ func init() {
 	Register(&Prop{
 		ID:  "C09",
 		Run: runC09,
-		Rule: "case = 1-3 concurrent publishers (1-10/18 events over 2 topics x 2-4 IDs x 4 levels) x 0-2 concurrent readers (TopicState, EventStates(min)) x a registrar (0-3 handler specs of kind publish/aggregate with one of 8 match expressions, registered for the whole run or added/replaced/removed midway, plus anonymous handler churn) x optional UpdateEvent on a not-yet-existing topic x one seeded schedule/knob set; " +
+		Rule: "case = 1-3 concurrent publishers (1-10/18 events over 3 topics - two with handlers, one that only comes into existence with the first event collected on it, in a third of the cases by all publishers at once - x 2-4 IDs x 4 levels) x 0-2 concurrent readers (TopicState, EventStates(min)) x a registrar (0-3 handler specs of kind publish/aggregate with one of 8 match expressions, registered for the whole run or added/replaced/removed midway, plus anonymous handler churn; every handler topic has a possibly slow recorder registered first and a never delayed one registered last) x final reads of every topic x optional UpdateEvent on a not-yet-existing topic x one seeded schedule/knob set; " +
 			"non-trivial = some topic history has >= 3 operations; distinct = distinct (scenario, interleaving signature) pairs",
 		Real:        []string{"services/alert Service (Collect, UpdateEvent, TopicState, EventStates, Register/Update/DeregisterHandlerSpec, Register/DeregisterAnonHandler, match/publish/aggregate handlers)", "alert.Topics, Topic, bufHandler", "tick/stateful (match expressions)", "services/storage (handler spec DAO) over real bbolt"},
 		Stub:        []string{"recording alert.Handler registered through the real service", "porcupine v1.3.0 as the linearizability checker (uninstrumented, runs after the world)", "libflux C stub (never called)"},
-		Assumptions: []string{"operations are stamped with the simulator's global event sequence at invoke and return", "an event whose Collect returned an error (a handler queue was full) may have reached any subset of handlers: at most once each", "cross-publisher delivery order is not constrained; per-publisher order is", "porcupine results of 'unknown' (timeout) are counted, never reported"},
+		Assumptions: []string{"operations are stamped with the simulator's global event sequence at invoke and return", "an event whose Collect returned an error speaking of f handler failures (full queues) may have skipped at most f of the two always-registered handlers of its topic, and reached each at most once; f is read from the error text, one failure per line", "cross-publisher delivery order is not constrained; per-publisher order is", "porcupine results of 'unknown' (timeout) are counted, never reported"},
 	})
 }
